@@ -6,7 +6,7 @@ P="$1"; shift
 D=$(mktemp -d /tmp/mrepo.XXXXXX)
 VERIF_HOME=$(cd "$(dirname "$(readlink -f "$0")")/.." && pwd)
 TAG=$(python3 -c 'import sys,zlib; print("%08x" % (zlib.crc32(sys.argv[1].encode()) & 0xFFFFFFFF))' "$D")
-trap 'rm -rf "$D"; rm -f "$VERIF_HOME"/.build/bin/*-$TAG.test "$VERIF_HOME"/.build/alt-$TAG.*; rm -rf "$VERIF_HOME"/.build/out-$TAG' EXIT
+trap 'rm -rf "$D"; rm -f "$VERIF_HOME"/.build/bin/*-$TAG.test "$VERIF_HOME"/.build/alt-$TAG.*; rm -rf "$VERIF_HOME"/.build/out-$TAG "$VERIF_HOME"/.build/evidence-scratch/$TAG' EXIT
 rsync -a --exclude .git /repo/ "$D"/
 case "$P" in
   -R:*) git -C /repo show "${P#-R:}" | (cd "$D" && patch -s -R -p1) ;;
